@@ -73,6 +73,13 @@ var extAlphabet = []shape{
 	sf("float", `{id:%d,a:%d.5}`),
 	sf("set-rec-xy", `{id:%d,a:|[{x:1,y:%d}]|}`),
 	sf("set-rec-yx", `{id:%d,a:|[{y:1,x:%d},{y:2,x:1}]|}`),
+	// unions with two record members: fused with a type that holds only one
+	// of the members (rec-b, rec-c, rec-b-str, arr-rec, arr-rec-c above) the
+	// merge finds nothing to append to the member list
+	sf("arr-2rec", `{id:%d,a:[{b:%d},{b:"y"}]}`),
+	sf("arr-2rec-disj", `{id:%d,a:[{b:%d},{c:7}]}`),
+	sf("union-2rec", `{id:%d,a:{b:%d}(({b:int64},{c:string}))}`),
+	sf("union-2rec-c", `{id:%d,a:{c:"u%d"}(({b:int64},{c:string}))}`),
 }
 
 func parseZSON(zctx *zed.Context, text string) ([]zed.Value, error) {
@@ -230,6 +237,66 @@ func genVariations(r *Rng, zctx *zed.Context, n int) []zed.Value {
 	return out
 }
 
+// genUnionSubset: a union U of two or three record types (plus sometimes a
+// non-record) placed in a field, an array, a set or at the top, mixed with
+// values whose type at the same place is one member of U, a sub-union of U,
+// or U itself: the merge then meets unions to which nothing has to be added.
+func genUnionSubset(r *Rng, zctx *zed.Context, n int) []zed.Value {
+	var members []zed.Type
+	seen := map[zed.Type]bool{}
+	nrec := 2 + r.Intn(2)
+	for len(members) < nrec {
+		names := []string{"x", "y", "w"}
+		Shuffle(r, names)
+		k := 1 + r.Intn(2)
+		var fs []zed.Field
+		for i := 0; i < k; i++ {
+			fs = append(fs, zed.NewField(names[i], Pick(r, []zed.Type{zed.TypeInt64, zed.TypeString, zed.TypeInt64, zed.TypeFloat64, zctx.LookupTypeArray(zed.TypeInt64)})))
+		}
+		t := zctx.MustLookupTypeRecord(fs)
+		if !seen[t] {
+			seen[t] = true
+			members = append(members, t)
+		}
+	}
+	if r.Chance(1, 3) {
+		members = append(members, Pick(r, []zed.Type{zed.TypeInt64, zed.TypeString, zed.TypeBool}))
+	}
+	at := r.Intn(5)
+	place := func(t zed.Type) zed.Type {
+		switch at {
+		case 0:
+			return zctx.MustLookupTypeRecord([]zed.Field{zed.NewField("a", t)})
+		case 1:
+			return zctx.MustLookupTypeRecord([]zed.Field{zed.NewField("a", zctx.LookupTypeArray(t))})
+		case 2:
+			return zctx.MustLookupTypeRecord([]zed.Field{zed.NewField("k", zed.TypeInt64), zed.NewField("a", zctx.LookupTypeSet(t))})
+		case 3:
+			return zctx.LookupTypeArray(t)
+		}
+		return t
+	}
+	u := zctx.LookupTypeUnion(append([]zed.Type{}, members...))
+	cands := []zed.Type{place(u), place(u)}
+	for _, m := range members {
+		cands = append(cands, place(m))
+	}
+	if len(members) > 2 {
+		cands = append(cands, place(zctx.LookupTypeUnion([]zed.Type{members[0], members[1]})))
+	}
+	ntypes := 2 + r.Intn(3)
+	Shuffle(r, cands)
+	if len(cands) > ntypes {
+		cands = cands[:ntypes]
+	}
+	o := GenOpts{Depth: 2, FewNames: true}
+	var out []zed.Value
+	for i := 0; i < n; i++ {
+		out = append(out, GenValue(r, zctx, Pick(r, cands), o))
+	}
+	return out
+}
+
 // wrapID returns {id:i,v:<v>}.
 func wrapID(zctx *zed.Context, i int, v zed.Value) zed.Value {
 	t := zctx.MustLookupTypeRecord([]zed.Field{zed.NewField("id", zed.TypeInt64), zed.NewField("v", v.Type())})
@@ -248,7 +315,10 @@ func genRandom(r *Rng, zctx *zed.Context) ([]zed.Value, string) {
 	n := 1 + r.Intn(10)
 	var vals []zed.Value
 	var kind string
-	switch r.Intn(10) {
+	switch r.Intn(12) {
+	case 10, 11:
+		kind = "union-subset"
+		vals = genUnionSubset(r, zctx, n)
 	case 0, 1, 2, 3:
 		kind = "variations"
 		vals = genVariations(r, zctx, n)
